@@ -18,12 +18,19 @@ pub struct SchedReader {
     later: usize,
     fail_at: Option<usize>,
     ncalls: usize,
+    eintr_done: bool,
+    eintr_at: Option<usize>,
     pub log: Arc<Mutex<Log>>,
 }
 
 impl SchedReader {
     pub fn new(data: Vec<u8>, first: usize, later: usize, fail_at: Option<usize>) -> Self {
-        Self { data, pos: 0, buf_start: 0, first, later, fail_at, ncalls: 0, log: Arc::new(Mutex::new(Log::default())) }
+        Self { data, pos: 0, buf_start: 0, first, later, fail_at, ncalls: 0, eintr_done: false, eintr_at: None, log: Arc::new(Mutex::new(Log::default())) }
+    }
+    /// One transient interruption (EINTR) when the stream stands at byte offset `at`; the call before it ends exactly there.
+    pub fn with_eintr(mut self, at: usize) -> Self {
+        self.eintr_at = Some(at);
+        self
     }
     fn underlying(&mut self) -> io::Result<usize> {
         if let Some(f) = self.fail_at {
@@ -34,12 +41,20 @@ impl SchedReader {
                 return Err(io::Error::new(kind, "injected read failure"));
             }
         }
+        if let Some(at) = self.eintr_at {
+            if self.pos == at && !self.eintr_done {
+                self.eintr_done = true;
+                self.log.lock().unwrap().calls.push(("eintr".into(), self.pos));
+                return Err(io::Error::new(io::ErrorKind::Interrupted, "injected EINTR"));
+            }
+        }
         let remaining = self.data.len() - self.pos;
         let want = if self.ncalls == 0 { self.first } else if self.later == 0 { remaining } else { self.later };
         let upto = match self.fail_at {
             Some(f) if f > self.pos => f - self.pos,
             _ => remaining,
         };
+        let upto = match self.eintr_at { Some(at) if at > self.pos && !self.eintr_done => upto.min(at - self.pos), _ => upto };
         let n = want.min(remaining).min(upto);
         self.ncalls += 1;
         self.pos += n;
